@@ -92,16 +92,29 @@ def find_fn(toks, lo, hi, name):
 
 def find_struct(toks, name):
     for i, (k, t) in enumerate(toks):
-        if t == "struct" and toks[i + 1][1] == name and toks[i + 2][1] == "{":
-            e = find_block(toks, i + 2)
-            fields, j = [], i + 3
+        if t == "struct" and toks[i + 1][1] == name:
+            b = i + 2
+            if toks[b][1] == "<":                  # generic parameters
+                d = 0
+                while True:
+                    d += toks[b][1] == "<"
+                    d -= toks[b][1] == ">"
+                    b += 1
+                    if d == 0:
+                        break
+            if toks[b][1] != "{":
+                continue
+            e = find_block(toks, b)
+            fields, j = [], b + 1
             while j < e - 1:
                 while toks[j][1] in ("pub", "(", "crate", ")"):
                     j += 1
                 fname = toks[j][1]
                 assert toks[j + 1][1] == ":", "struct field syntax"
-                ty, j = [], j + 2
-                while toks[j][1] not in (",", "}"):
+                ty, j, d = [], j + 2, 0
+                while not (d == 0 and toks[j][1] in (",", "}")):
+                    d += toks[j][1] in ("(", "[", "<")
+                    d -= toks[j][1] in (")", "]", ">")
                     ty.append(toks[j][1])
                     j += 1
                 fields.append((fname, " ".join(ty)))
@@ -325,6 +338,9 @@ class P:
         if t in ("true", "false"):
             self.eat()
             return ("bool", t == "true")
+        if k == "chr":
+            self.eat()
+            return ("char", t)
         if t == "(":
             self.eat()
             e = self.expr()
@@ -414,6 +430,11 @@ class Ctx:
         self.opaque = opaque or {}       # textual receiver.method() / receiver.field -> (coq term, type)
         self.ops = ops or {}             # (op, lhs type, rhs type) -> (coq function name, result type, partial?)
         self.variants = {}               # rust enum variant name -> Coq pattern
+        self.enums = {}
+        self.chars = {}                  # rust char literal text -> (coq term of type N)
+        self.ctors = {}                  # rust enum variant with fields -> (coq constructor, enum type)
+        self.values = {}                 # rust enum variant without fields, as an EXPRESSION -> (coq term, enum type)
+        self.ignore_stmts = set()        # expression statements (as text) without effect on the modelled state
 
 
 def cty(ctx, ty):
@@ -457,6 +478,17 @@ class Tr:
         k = x[0]
         if k in ("call", "bin") and self.ctx.opaque and self.text(x) in self.ctx.opaque:
             return self.ctx.opaque[self.text(x)]
+        if k == "raw":
+            return x[1], x[2]
+        if k == "char":
+            if x[1] not in self.ctx.chars:
+                raise Unsupported("char literal %s" % x[1])
+            return self.ctx.chars[x[1]], "N"
+        if k == "path" and len(x[1]) == 2 and x[1][1] in self.ctx.values:
+            return self.ctx.values[x[1][1]]
+        if k == "call" and len(x[1]) == 2 and x[1][1] in self.ctx.ctors:
+            cn, ety = self.ctx.ctors[x[1][1]]
+            return "(%s %s)" % (cn, " ".join(self.e(a)[0] for a in x[2])), ety
         if k == "int":
             return str(x[1]), "N"
         if k == "bool":
@@ -609,6 +641,10 @@ class Tr:
 
     def binop(self, x):
         _, op, l, r = x
+        if op in ("==", "!=") and r[0] == "path" and len(r[1]) == 2 and r[1][1] in self.ctx.variants and r[1][0] in self.ctx.enums:
+            a, _ = self.e(l)                  # comparison with a field-less enum variant
+            t = "(match %s with %s => true | _ => false end)" % (a, self.ctx.variants[r[1][1]])
+            return (t if op == "==" else "(negb %s)" % t), "bool"
         a, aty = self.e(l)
         if op in ("&&", "||"):
             # the right operand is only evaluated on one outcome of the left
@@ -658,8 +694,8 @@ class Tr:
     def blk(self, b, result=None, cont=None):
         """cont: what follows this block when control falls off its end (used for blocks of a statement-`if` that contains a `return`)"""
         _, stmts, tail = b
-        if cont is not None and tail is not None and tail[0] == "if":
-            stmts, tail = stmts + [("expr", tail)], None
+        if (cont is not None or result is not None) and tail is not None and tail[0] == "if":
+            stmts, tail = stmts + [("expr", tail)], None          # a trailing `if` of a block evaluated for its effect
         saved_env, saved_lets = dict(self.env), list(self.lets)
         pre = []
 
@@ -714,6 +750,13 @@ class Tr:
                     pre.append((n, v))
                     self.lets.append((n, v))
                     self.env[n] = ty
+            elif s[0] == "expr" and s[1][0] == "mcall" and self.text(s[1]) in self.ctx.ignore_stmts:
+                continue
+            elif s[0] == "expr" and s[1][0] == "mcall" and self.self_update(s[1]) is not None:
+                n, v, ty = self.self_update(s[1])
+                pre.append((n, v))
+                self.lets.append((n, v))
+                self.env[n] = ty
             else:
                 raise Unsupported("statement %r" % (s[0],))
         if cont is not None:
@@ -727,6 +770,20 @@ class Tr:
         else:
             raise Unsupported("block without a value")
         return close(t, ty)
+
+    def self_update(self, x):
+        """`self.m(args);` for a translated `&mut self` method, or `self.f.push(v);` on a list field: a new value of `self`"""
+        _, recv, name, args = x
+        if recv == ("path", ["self"]) and (self.env.get("self"), name) in self.ctx.funcs and self.ctx.funcs[(self.env["self"], name)][2] == self.env["self"]:
+            t, ty = self.call(self.ctx.funcs[(self.env["self"], name)], [("self", self.env["self"])] + [self.e(a) for a in args])
+            return "self", t, ty
+        if name == "push" and len(args) == 1 and recv[0] == "field" and recv[1] == ("path", ["self"]):
+            cur, cty_ = self.e(recv)
+            if not cty_.startswith("list "):
+                return None
+            v, _ = self.e(args[0])
+            return self.assign(("assign", recv, "=", ("raw", "(%s ++ [%s])" % (cur, v), cty_)))
+        return None
 
     def assign(self, s):
         _, lhs, op, rhs = s
@@ -762,7 +819,15 @@ class Tr:
                     tgt = s[1]
                     out.append(tgt[1][0] if tgt[0] == "path" else tgt[1][1][0])
                 elif s[0] == "expr" and s[1][0] == "if":
-                    out += assigned(s[1][2]) + (assigned(s[1][3]) if s[1][3] else [])
+                    out += assigned(stmtify(s[1][2])) + (assigned(stmtify(s[1][3])) if s[1][3] else [])
+                elif s[0] == "let":
+                    continue
+                elif s[0] == "expr" and s[1][0] == "mcall" and self.text(s[1]) in self.ctx.ignore_stmts:
+                    continue
+                elif s[0] == "expr" and s[1][0] == "mcall" and s[1][1] == ("path", ["self"]):
+                    out.append("self")
+                elif s[0] == "expr" and s[1][0] == "mcall" and s[1][2] == "push":
+                    out.append("self")
                 else:
                     raise Unsupported("statement inside an if used as a statement")
             return out
